@@ -35,6 +35,13 @@ def run_case(spec):
     src = os.path.basename(prep.b.src)
     S = Session(prep.b, v, mon=dict(MON_LIGHT, dr=True))
     ops_done = []
+
+    def sfx():
+        # a signal that is pending at a breakpoint stop or arrives during a step is lost / delivered late (C10 known findings):
+        # in a program whose checksum counts handler runs this changes the output; keyed separately so that it cannot hide
+        # an output difference of a program without signals
+        stepped = any(o.split(':')[-1] in ('stepi', 'step', 'next', 'finish', 'cont') for o in ops_done)
+        return ':signal-program' if cfg.get('signals') and stepped else ''
     completed_runs = 0
     bps = {}        # relocated addr -> num
     wps = []
@@ -53,6 +60,29 @@ def run_case(spec):
         r = S.cmd('start')
         if r.get('ok', {}).get('stop') == 'exit':
             completed_runs += 1
+        if cfg.get('signals') and not S.exited and rng.random() < 0.8:
+            # targeted prelude: stop on a line that raises a signal in its callee, then step over / into / out of it, so that
+            # the step command is interrupted by the signal (its error and early-return paths run under the text monitor)
+            sig_lines = [i + 1 for i, l in enumerate(open(prep.b.src).read().splitlines()) if 'sig_me(x);' in l and 'fn ' not in l]
+            if sig_lines:
+                ln = rng.choice(sig_lines)
+                rb = S.cmd('break_line', file=src, line=ln)
+                tmp = [reloc(prep.b, vw['addr']) for vw in (rb.get('ok') or [])]
+                for a, vw in zip(tmp, rb.get('ok') or []):
+                    bps[a] = vw['num']
+                for _ in range(60):
+                    r = S.cmd('cont', timeout=180)
+                    okv = r.get('ok') or {}
+                    if okv.get('stop') == 'exit':
+                        completed_runs += 1
+                        break
+                    if okv.get('stop') == 'breakpoint' and okv.get('pc') in tmp:
+                        op = rng.choice(['next', 'next', 'step', 'finish'])
+                        ops_done.append('sigstep:' + op)
+                        r = S.cmd(op, timeout=180)
+                        if any(e.get('ev') == 'signal' for e in r.get('ev', [])):
+                            v.count('steps_interrupted_by_signal')
+                        break
         n = rng.randint(10, 30 if tier == 'quick' else 45)
         weights = [6, 4, 3, 4, 3, 3, 3, 2, 1, 1, 2, 1]
         for _ in range(n):
@@ -144,7 +174,7 @@ def run_case(spec):
                 code = r.get('ok', {}).get('code')
                 v.count('exit_codes_checked')
                 if code != prep.native[2]:
-                    v.violation('c02:exit-status-differs', 'exit status reported under the debugger differs from the native run',
+                    v.violation('c02:exit-status-differs' + sfx(), 'exit status reported under the debugger differs from the native run',
                                 {'got': code, 'native': prep.native[2], 'ops': ops_done, 'history': S.history[-40:], 'binary': prep.b.path})
         elif ending == 'detach':
             r = S.cmd('detach', mon=False)
@@ -154,14 +184,14 @@ def run_case(spec):
                 v.count('detached_runs')
                 completed_runs += 1
                 if st.get('ok') != {'exited': prep.native[2]}:
-                    v.violation('c02:detached-process-does-not-finish-natively',
+                    v.violation('c02:detached-process-does-not-finish-natively' + sfx(),
                                 'after detach the program did not run to its native exit status (a patch or stop was left behind)',
                                 {'wait': st, 'native': prep.native[2], 'ops': ops_done, 'history': S.history[-40:], 'binary': prep.b.path})
         exp = prep.native[0] * completed_runs
         out, err = S.output(expect_stdout=exp)
         v.count('outputs_compared')
         if out != exp:
-            v.violation('c02:output-differs', 'debuggee output differs from the native run',
+            v.violation('c02:output-differs' + sfx(), 'debuggee output differs from the native run',
                         {'got': out[-300:].decode('latin1'), 'expected': exp[-300:].decode('latin1'), 'completed_runs': completed_runs,
                          'ops': ops_done, 'history': S.history[-40:], 'binary': prep.b.path})
         v.count('commands', len(S.history))
